@@ -4,6 +4,9 @@ package main
 import (
 	_ "verif/internal/c01"
 	_ "verif/internal/c12"
+	_ "verif/internal/c17"
+	_ "verif/internal/c18"
+	_ "verif/internal/c19"
 	"verif/internal/fw"
 )
 
